@@ -593,7 +593,7 @@ def run_shape(shape, tier="quick", seed=0):
         ok = _replay(shape, rec, pr["cands"], pr["label"], pr["pcs"], quiet=pr["quiet"])
         if not ok and pr.get("unknown"):
             rec["inconclusive"].append(dict(path=pr.get("path"), reason=pr["unknown"]))
-        if not ok and pr.get("tb") and not pr["quiet"]:
+        if not ok and pr.get("tb") and not pr["quiet"] and rec["inconclusive"]:
             rec["inconclusive"][-1]["traceback"] = pr["tb"][-1500:]
     if shape.canary:
         if rec["violations"]:
